@@ -148,6 +148,9 @@ func init() {
 			// keepalive pings count against the window like any DATA packet
 			{Scenario: "pingwindow/N=2", Budgets: bs(B(1, 0)), Split: 1},
 			{Scenario: "pingwindow/N=3", Budgets: bs(B(0, 0))},
+			// the sequence space is strictly larger than the window whatever
+			// window byte a client proposes
+			{Scenario: "synN(all 256 window bytes)", Scenarios: synNBatch(), Budgets: bs(B(0, 0))},
 		},
 		thorough: []Job{
 			{Scenario: "fullwindow/N=1", Budgets: bs(B(2, 1), B(1, 2), B(0, 3)), Split: 2},
@@ -228,6 +231,9 @@ func init() {
 			// the retransmission period of the other
 			{Scenario: "prog/N=1/k=2/R=300ms/RS=2s", Budgets: bs(B(0, 2)), Split: 1},
 			{Scenario: "prog/N=1/k=2/R=2s/RS=300ms", Budgets: bs(B(0, 2)), Split: 1},
+			// the peer streams data of its own faster than the resend timeout
+			// while an outbound packet is lost: delivery within 10 s of the loss
+			{Scenario: "stream/N=2/k=25", Budgets: bs(B(0, 1)), Split: 1},
 			// a receiving application that starts late (back-pressure: more
 			// than a window of messages arrives before the first Recv)
 			{Scenario: "prog/N=2/k=6/rpre=4s", Budgets: bs(B(0, 1)), Split: 1},
@@ -242,6 +248,8 @@ func init() {
 			{Scenario: "prog/N=2/k=3/ka=2s,1s", Budgets: bs(B(1, 1), B(0, 2)), Split: 2},
 			{Scenario: "prog/N=2/k=3/ka=5s,3s", Budgets: bs(B(0, 2)), Split: 1},
 			{Scenario: "prog/N=2/k=3/R=300ms/RS=2s", Budgets: bs(B(0, 3)), Split: 2},
+			{Scenario: "stream/N=2", Budgets: bs(B(0, 2)), Split: 2},
+			{Scenario: "stream/N=2/adaptive/ka=2s,1s", Budgets: bs(B(0, 1)), Split: 1},
 			{Scenario: "prog/kind=bidi/N=1/k=2/R=2s/RS=300ms", Budgets: bs(B(0, 3)), Split: 1},
 			{Scenario: "prog/N=2/k=6/rpre=4s", Budgets: bs(B(1, 1), B(0, 2)), Split: 1},
 			{Scenario: "prog/N=1/k=3", Budgets: bs(B(1, 3), B(2, 1)), Split: 2},
